@@ -349,6 +349,14 @@ def do_op(ctx, sess, side, op, tag):
         elif op == "drain_none":
             info["amount"] = None
             info["ret"] = sess.data_to_send()
+        elif op.startswith("drainK"):
+            # a drain of (threshold + 0..2) octets: together with a message of more than ten
+            # thousand octets pending this walks the offsets a buffer implementation may treat
+            # specially (powers of two, compaction thresholds)
+            a = int(op[6:]) + ctx.int(f"{tag}.delta", 0, 2)
+            info["amount"] = a
+            info["op"] = "drain"
+            info["ret"] = sess.data_to_send(a)
         elif op == "unbind":
             info["ret"] = sess.unbind()
         elif op.startswith("recv2_"):
@@ -378,6 +386,9 @@ def do_op(ctx, sess, side, op, tag):
                 info["ret"] = sess.search_request("dc=\udc00x", attributes=["cn"])
             elif op == "extended":
                 info["ret"] = sess.extended_request("1.2", ctx.bytes(f"{tag}.val", 1), controls=ctl)
+            elif op == "extended_big":
+                info["op"] = "extended"
+                info["ret"] = sess.extended_request("1.2", ctx.bytes(f"{tag}.val", 1) + bytes(range(256)) * 40, controls=ctl)
             else:
                 raise ValueError(op)
         else:
